@@ -32,6 +32,16 @@ CHECKS = {
          "conventions l<=9, composition triples, every single-label corruption) are validated against Convert/ConvertBasis.",
     note="label strings are parsed by the harness; tables are read from the modules at run time",
     technique="TLA+ model (Conventions.tla) checked with TLC + TLC validation of exported tables and recorded convert_conventions calls"),
+ "C08": dict(
+    category="model_checking", design_ref="DESIGN.md section 6 C08",
+    text="TLC checks PreflightSparesFile, FormatErrorTouchesNothing, FirstFrameGuarantee, EmptyFramesNoFile, ErrorClass(ByOp), "
+         "NoLeakedFd, LazyExactlyOnce, ReturnMeansComplete, NotSwallowed, WarnedIffConverted and termination on every scenario of "
+         "the bounded ApiDump protocol model; ~1000 (quick) concrete scenarios over all 13+4 dump formats and both input writers "
+         "(every subset of required attributes cleared, every rejection reason, allow_changes, pre-existing target, faulty-frame "
+         "index, list/generator/raising iterables, write fault at the k-th write, open failure) are executed through tracing "
+         "open/iterable shims and every recorded trace is validated against the protocol by TLC.",
+    note="BaseExceptions and failures of close() are not injected; an exception from the caller's iterable may surface wrapped or not",
+    technique="TLA+ protocol model (ApiDump.tla) checked with TLC + trace validation of real dump_one/dump_many/write_input executions with fault injection"),
 }
 NOT_YET = "check not built yet in this round (planned, see DESIGN.md section 6)"
 
